@@ -45,7 +45,19 @@ func init() {
 	const libv = "github.com/pb33f/libopenapi-validator"
 
 	intrinsics["(*"+kin+".T).Validate"] = func(fr *frame, args []value) value {
+		if fr.i.path.realLibs["openapi3.Validate"] {
+			// the harness asked for the library itself: interpret its body
+			return callBody(fr.i, fr.caller, fr, fr.fn, args, nil)
+		}
 		return fr.i.nilOrError(fr, fr.i.stubOutcome("openapi3.Validate"), "stub: 3.0 validation failed")
+	}
+	// symxRealLibrary(name): from here on, on this path, the named stand-in is replaced by the real code
+	harnessAPI["symxRealLibrary"] = func(fr *frame, args []value) value {
+		if fr.i.path.realLibs == nil {
+			fr.i.path.realLibs = map[string]bool{}
+		}
+		fr.i.path.realLibs[argString(fr, args[0])] = true
+		return nil
 	}
 	intrinsics["(*"+lib+"/datamodel/high/v3.Document).RenderJSON"] = func(fr *frame, args []value) value {
 		if fr.i.stubOutcome("v3.RenderJSON") {
